@@ -434,8 +434,19 @@ def hashn_table(F, rep, rule="C16.5"):
     problems = []
     rows = 0
     import itertools
-    for n in (0, 1, 2, 3):
-        for combo in itertools.product(sorted(classes), repeat=n):
+    short = [combo for n in (0, 1, 2, 3) for combo in itertools.product(sorted(classes), repeat=n)]
+    # long reads (full storage words plus a partial one): ambiguous bytes at the first / last lane of a word, in the partial last word and at
+    # the very end — the substituted base must still be hash(name, ABSOLUTE position)
+    longs = []
+    for n, ns in ((33, (32,)), (34, (0, 33)), (64, (31, 63)), (65, (32, 64)), (70, (1, 35, 69))):
+        row = ["A"] * n
+        for q in ns:
+            row[q] = "N"
+        row[n // 2 - 1] = "c" if row[n // 2 - 1] == "A" else row[n // 2 - 1]
+        longs.append(tuple(row))
+    for combo in short + longs:
+        n = len(combo)
+        if True:
           for avx2 in (False, True):
             rows += 1
             rep.evaluations += 1
